@@ -3,6 +3,8 @@ EXTENDS CMConfigs
 QuickSystems == {"earth-moon"}
 QuickPoints == {1}
 QuickDegrees == {4}
+QuickDirs == {"planar", "mixed"}
+ThoroughDirs == {"planar", "vertical", "mixed", "mixed2"}
 ThoroughSystems == {"earth-moon", "sun-earth"}
 ThoroughPoints == {1, 2}
 ThoroughDegrees == {4, 6}
